@@ -307,3 +307,121 @@ func VfC07Error() {
 	}
 	vf.Reach("done")
 }
+
+// ---- hello: a hello from X re-keys only the session with X ----
+
+var vfHelloSent []sendPingOpts
+
+func vfSendPingHello(r *Router, opts sendPingOpts) error {
+	vfHelloSent = append(vfHelloSent, opts)
+	if vf.Bool() {
+		return errVfCbor7
+	}
+	return nil
+}
+
+func vfCborHello(data []byte, v any) error {
+	if vf.Bool() {
+		return errVfCbor7
+	}
+	switch dst := v.(type) {
+	case *HelloPingRequest:
+		n := vf.Choose(3) * 16 // 0, 16 or 32 bytes of key share
+		dst.KeyExchange = vf.Bytes(n)
+		dst.KeyExchangeType = []string{"ECDH-X25519/BLAKE3", "", "other"}[vf.Choose(3)]
+		dst.MTU = vf.Int()
+	case *HelloPingResponse:
+		n := vf.Choose(3) * 16
+		dst.KeyExchange = vf.Bytes(n)
+		dst.KeyExchangeType = []string{"ECDH-X25519/BLAKE3", "", "other"}[vf.Choose(3)]
+		dst.MTU = vf.Int()
+		if vf.Bool() {
+			dst.Err = "no"
+		}
+	}
+	return nil
+}
+
+func vfCborMarshalHello(v any) ([]byte, error) { return []byte{0xa1, 1, 2, 3}, nil }
+
+// VfC07Hello: a (verified) hello request or response from X with an arbitrary
+// decoded body, while this router also has a session with - and possibly a
+// pending hello of its own to - another router Y, and possibly a pending hello
+// to X: afterwards Y's session (encryption object, keys, receive windows,
+// MTU) and Y's pending exchange are exactly what they were; only X's session
+// may have new keys; a response is accepted only for the pending exchange
+// with X carrying that exchange's ping id, and at most once; whatever is sent
+// goes to X.
+func VfC07Hello() {
+	own, src, other := vfMycoAddr(), vfMycoAddr(), vfMycoAddr()
+	vf.Assume(own != src && own != other && src != other)
+	id := &m.Address{PublicAddress: m.PublicAddress{IP: own}}
+	cfg := &config.Config{}
+	inst := &vfRInst{id: id, cfg: cfg, builder: frame.NewFrameBuilder()}
+	inst.st = state.VfNewState(&state.VfInstance{Id: id, Cfg: cfg}, &m.PublicAddress{IP: src}, &m.PublicAddress{IP: other})
+	encSrc := state.VfEncSession(vf.NewAEAD(1), vf.NewAEAD(2))
+	if vf.Bool() {
+		inst.st.VfPeerSession(src).SetEncryptionSession(encSrc)
+	}
+	encOther := state.VfEncSession(vf.NewAEAD(3), vf.NewAEAD(4))
+	encOther.VfSeqStateEnc()
+	inst.st.VfPeerSession(other).SetEncryptionSession(encOther)
+	mtuOther := 1300 + vf.Choose(2)*100
+	inst.st.VfPeerSession(other).SetTunMTU(mtuOther)
+	w0 := encOther.VfSeqSnap()
+	oin0, oout0, _ := encOther.VfKeys()
+	r := &Router{instance: inst}
+	h := NewHelloPingHandler(r)
+	r.HelloPing = h
+	// pending exchanges of our own
+	var pendSrc, pendOther *helloPingState
+	if vf.Bool() {
+		_, err := h.Send(src)
+		vf.Assume(err == nil)
+		pendSrc = h.active[src]
+	}
+	if vf.Bool() {
+		_, err := h.Send(other)
+		vf.Assume(err == nil)
+		pendOther = h.active[other]
+	}
+	vfHelloSent = nil
+	f, err := inst.builder.NewFrameV1(src, own, frame.RouterPing, nil, []byte("12345678"), nil)
+	if err != nil {
+		vf.Stop()
+	}
+	hdr := &PingHeader{PingID: vf.U64(), FollowUp: vf.Bool()}
+	srcEnc0 := inst.st.VfPeerSession(src).VfEnc()
+	herr := h.Handle(vfW, f, hdr, f.MessageData())
+
+	// the other router's session and pending exchange are untouched
+	so := inst.st.VfPeerSession(other)
+	vf.Assert(so.VfEnc() == encOther, "hello-replaced-session-of-other-router")
+	oin1, oout1, _ := encOther.VfKeys()
+	vf.Assert(oin1 == oin0 && oout1 == oout0 && encOther.VfSeqSnap() == w0, "hello-changed-keys-or-windows-of-other-router")
+	vf.Assert(so.TunMTU() == mtuOther, "hello-changed-mtu-of-other-router")
+	vf.Assert(h.active[other] == pendOther, "hello-changed-pending-exchange-with-other-router")
+	if pendOther != nil {
+		vf.Assert(!pendOther.done.Load(), "hello-completed-pending-exchange-with-other-router")
+	}
+	for _, o := range vfHelloSent {
+		vf.Assert(o.dst == src, "hello-reply-sent-to-somebody-else")
+	}
+	if hdr.FollowUp {
+		// a response: only for the pending exchange with X, with its id, once
+		if herr == nil {
+			vf.Assert(pendSrc != nil && hdr.PingID == pendSrc.pingID, "hello-response-accepted-without-matching-pending-exchange")
+			vf.Assert(inst.st.VfPeerSession(src).VfEnc() == pendSrc.encSession, "accepted-response-did-not-install-the-pending-exchange")
+			vf.Assert(h.Handle(vfW, f, hdr, f.MessageData()) != nil, "hello-response-accepted-twice")
+			vf.Reach("response-accepted")
+		} else {
+			vf.Assert(inst.st.VfPeerSession(src).VfEnc() == srcEnc0, "refused-response-changed-the-session")
+			vf.Reach("response-refused")
+		}
+	} else if herr == nil {
+		vf.Assert(len(vfHelloSent) == 1 && vfHelloSent[0].followUp && vfHelloSent[0].pingID == hdr.PingID, "request-not-answered-with-its-id")
+		vf.Reach("request-served")
+	} else {
+		vf.Reach("request-refused")
+	}
+}
